@@ -40,6 +40,9 @@ type c01World struct {
 	cl  *TCluster
 	mu  sync.Mutex
 	ups []*Up // every upstream ever connected
+	// upstreams whose connect call is in progress: id -> endpoint (they can serve
+	// before the harness has the object in hand)
+	connecting map[string]string
 }
 
 func (w *c01World) byID(id string) *Up {
@@ -60,6 +63,15 @@ func (w *c01World) validServe(endpoint, stampEp, stampUp string, start, end time
 	}
 	u := w.byID(stampUp)
 	if u == nil {
+		w.mu.Lock()
+		ep, pending := w.connecting[stampUp]
+		w.mu.Unlock()
+		if pending {
+			if ep != endpoint {
+				return fmt.Sprintf("addressed to endpoint %q but served by upstream %s listening on %q", endpoint, stampUp, ep)
+			}
+			return ""
+		}
 		if ForeignStamp(stampUp, w.cl.Gen) {
 			w.c.Harnessf("a request was answered by upstream %q, which belongs to an earlier cluster of this process (harness leak / port reuse)", stampUp)
 		}
@@ -199,7 +211,7 @@ func TestC01(t *testing.T) {
 		if !cl.WaitMembership(Deadline()) {
 			c.Fatalf("C01: %d nodes did not form a cluster within %v", N, Deadline())
 		}
-		w := &c01World{c: c, cl: cl}
+		w := &c01World{c: c, cl: cl, connecting: map[string]string{}}
 		defer func() {
 			for _, u := range w.ups {
 				if u.DisconnectEnd.IsZero() {
@@ -258,6 +270,12 @@ func TestC01(t *testing.T) {
 						mode = c.OneOf("mode", "host", "hostport", "header")
 					}
 					msg, served := w.issue(reqSpec{Entry: entry.Idx, Endpoint: e, Mode: mode}, true, &expect)
+					if msg != "" && strings.Contains(msg, "although an upstream is connected") {
+						// a starved machine can make a node suspect a healthy peer for a moment: confirm
+						c.Class("timing-retry")
+						w.waitSettled()
+						msg, served = w.issue(reqSpec{Entry: entry.Idx, Endpoint: e, Mode: mode}, true, &expect)
+					}
 					if msg != "" {
 						c.Fatalf("C01 (settled; placement %v): %s", p, msg)
 					}
@@ -285,6 +303,9 @@ func TestC01(t *testing.T) {
 				wg.Add(1)
 				go func() {
 					defer wg.Done()
+					w.mu.Lock()
+					w.connecting[fmt.Sprintf("%s@g%d", id, cl.Gen)] = ep
+					w.mu.Unlock()
 					ctx, cancel := context.WithTimeout(context.Background(), Deadline())
 					defer cancel()
 					u, err := ConnectUpstream(ctx, node, id, ep, "sdk-http", UpstreamOpts{})
@@ -330,6 +351,9 @@ func TestC01(t *testing.T) {
 					}
 					id := fmt.Sprintf("u%d", len(w.ups))
 					c.Stepf("connect %s (%s) for %s on %s", id, k, ep, node.ID)
+					w.mu.Lock()
+					w.connecting[fmt.Sprintf("%s@g%d", id, cl.Gen)] = ep
+					w.mu.Unlock()
 					ctx, cancel := context.WithTimeout(context.Background(), Deadline())
 					u, err := ConnectUpstream(ctx, node, id, ep, k, UpstreamOpts{})
 					cancel()
@@ -440,7 +464,13 @@ func TestC01(t *testing.T) {
 						if e[0] == 't' {
 							mode = "tcp"
 						}
-						if msg, _ := w.issue(reqSpec{Entry: entry.Idx, Endpoint: e, Mode: mode}, true, &expect); msg != "" {
+						msg, _ := w.issue(reqSpec{Entry: entry.Idx, Endpoint: e, Mode: mode}, true, &expect)
+						if msg != "" && strings.Contains(msg, "although an upstream is connected") {
+							c.Class("timing-retry")
+							time.Sleep(2 * time.Second)
+							msg, _ = w.issue(reqSpec{Entry: entry.Idx, Endpoint: e, Mode: mode}, true, &expect)
+						}
+						if msg != "" {
 							c.Fatalf("C01 (after losing %s by %s; survivors' upstreams %v): %s", victim.ID, manner, total, msg)
 						}
 					}
